@@ -202,6 +202,21 @@ prop('C07',
   "Not decided: absence of races at bytecode granularity (atomicity of deque/Queue/Event trusted), exactly-once under pre-emption, timing ('noticed without the polling timeout') as a timing statement.",
   "custom AST/CFG checker: lock-region membership, must-precede / never-after ordering, thread-affinity guard dominance, path-sensitive reachability for the lock state table, exception containment", "DESIGN.md 5/C07")
 
+prop('C01',
+  "Static analysis of /repo's current source: decides structural necessary conditions of the codec - the message / action / stats / "
+  "queue-property registries re-derived from the class decorators equal the OpenFlow 1.0 numbering, directions and list-ness, and the "
+  "generated constants equal the spec values; for every codec class of libopenflow_01 the byte layout abstractly interpreted from pack() "
+  "equals the one from unpack() item by item (offset, width, field) and the fixed part of both equals the OF 1.0 structure (order, widths, "
+  "names, sizeof), __len__'s constant part and _MIN_LENGTH equal sizeof; Nicira _pack_body/_unpack_body (and nx_flow_mod / nxt_packet_in) "
+  "layouts agree; length slots are fed by len(self) (or body length + fixed prefix); no int slot is fed by `x or K` with K != 0; "
+  "everything concatenated is bytes; codec methods have no undefined name, use-before-assignment, @staticmethod reading self, call with "
+  "unbindable arguments, missing method, or write-only private attribute; unpack_new asserts consumed == declared; the NXM table equals "
+  "nicira-ext.h with unique (vendor, field); _wire_wildcards/_unwire_wildcards/fix branch on the same ethertypes with inverse bit sets; "
+  "ofs_nbits bit-field composites are inverted by the unpack expressions on a sample domain (constant evaluation). Decides these "
+  "conditions, not equality of values after a round trip.",
+  "Not decided: value-level round trips (wildcard normalisation, max_len rewriting, signed slots for values >= 2^31, nx_match ordering), 64 KiB limits, re-encode equality of values.",
+  "custom AST checker: codec byte-layout extraction by abstract interpretation, layout/spec comparison, registry comparison, bytes/str typing, definiteness, sibling-branch symmetry, constant evaluation of bit-field expressions", "DESIGN.md 5/C01")
+
 NOT_APPLICABLE = {
   'C16': "Address types: the statement is about numeric/textual agreement over the whole address domain (byte order, mask arithmetic, CIDR parsing, zero-run compression, round trips, rejection of malformed text) - results of computations on runtime values; no shape-level rule is a necessary and telling condition for it (DESIGN.md section 7).",
 }
